@@ -90,7 +90,7 @@ Definition signature (c : case) : N :=
   end.
 
 Definition verdict (c : case) : N :=
-  if skipped c then 8%N
+  if skipped c then (if prop_holds c then 8%N else 2%N)     (* outside the model: the property is still evaluated *)
   else ((if model_agrees c then 0 else 1) + (if prop_holds c then 0 else 2))%N.
 
 Fixpoint run_cases (i : N) (cs : list case) : list (N * N * N) :=
